@@ -240,8 +240,11 @@ class C12(Check):
         nthreads = ops.choice([2, 2, 3, 3, 4])
         ids = ops.sample(range(10, 99), nthreads)
         reqs = []
+        # a third of the runs: every thread sends the SAME kind of request (other id, name, Accept): whatever the framework
+        # keeps per route / per error kind / per method set is shared by exactly such requests
+        same = ops.choice(KINDS)[0] if ops.random() < 0.35 else None
         for t in range(nthreads):
-            r = make_request(ops.choice(KINDS)[0], ids[t], ops.choice(NAMES), ops.choice(ACCEPTS))
+            r = make_request(same or ops.choice(KINDS)[0], ids[t], ops.choice(NAMES), ops.choice(ACCEPTS))
             r['name'] = 'T%d' % t
             reqs.append(r)
         sch = S['sched']
